@@ -4,7 +4,16 @@
 use rspack_sources::Rope;
 use serde::{Deserialize, Serialize};
 
-pub const PIECES: &[&str] = &["", "a", "b", "ab", "\n", "a\n", "\nb", "é", "aé", "日", "😀", "x\ny\n", "ab", "\n\n", "ß\n"];
+pub const PIECES: &[&str] = &[
+  "", "a", "b", "ab", "\n", "a\n", "\nb", "é", "aé", "日", "😀", "x\ny\n", "ab", "\n\n", "ß\n",
+  // long pieces (index 15..): a multi-byte character as the 256th / 512th character, a long ASCII line
+  LONG_A, LONG_B, LONG_C,
+];
+
+// LONG_A: the 256th character is 2 bytes wide; LONG_B: the 512th character is 4 bytes wide
+const LONG_A: &str = "aaaaaaaaaaaaaaaaaaaaaaaaaaaaaaaaaaaaaaaaaaaaaaaaaaaaaaaaaaaaaaaaaaaaaaaaaaaaaaaaaaaaaaaaaaaaaaaaaaaaaaaaaaaaaaaaaaaaaaaaaaaaaaaaaaaaaaaaaaaaaaaaaaaaaaaaaaaaaaaaaaaaaaaaaaaaaaaaaaaaaaaaaaaaaaaaaaaaaaaaaaaaaaaaaaaaaaaaaaaaaaaaaaaaaaaaaaaaaaaaaaaaaaaaaaaaaaaéb\nc";
+const LONG_B: &str = "bbbbbbbbbbbbbbbbbbbbbbbbbbbbbbbbbbbbbbbbbbbbbbbbbbbbbbbbbbbbbbbbbbbbbbbbbbbbbbbbbbbbbbbbbbbbbbbbbbbbbbbbbbbbbbbbbbbbbbbbbbbbbbbbbbbbbbbbbbbbbbbbbbbbbbbbbbbbbbbbbbbbbbbbbbbbbbbbbbbbbbbbbbbbbbbbbbbbbbbbbbbbbbbbbbbbbbbbbbbbbbbbbbbbbbbbbbbbbbbbbbbbbbbbbbbbbbbbbbbbbbbbbbbbbbbbbbbbbbbbbbbbbbbbbbbbbbbbbbbbbbbbbbbbbbbbbbbbbbbbbbbbbbbbbbbbbbbbbbbbbbbbbbbbbbbbbbbbbbbbbbbbbbbbbbbbbbbbbbbbbbbbbbbbbbbbbbbbbbbbbbbbbbbbbbbbbbbbbbbbbbbbbbbbbbbbbbbbbbbbbbbbbbbbbbbbbbbbbbbbbbbbbbbbbbbbbbbbbbbbbbbbbbbbbbbbbbbbbbbbbbbbbbbbbbb😀z";
+const LONG_C: &str = "let x = 1; let x = 1; let x = 1; let x = 1; let x = 1; let x = 1; let x = 1; let x = 1; let x = 1; let x = 1; let x = 1; let x = 1; let x = 1; let x = 1; let x = 1; let x = 1; let x = 1; let x = 1; let x = 1; let x = 1; let x = 1; let x = 1; let x = 1; let x = 1; let x = 1; let x = 1; let x = 1; let x = 1; let x = 1; let x = 1; \n";
 
 /// small scope used by the exhaustive enumeration
 pub const SMALL: &[usize] = &[0, 1, 4, 7, 10];
